@@ -226,17 +226,17 @@ func descSane(d ociregistry.Descriptor) tri {
 // loose: additionally follow subjects and interpret manifests by the media type
 // of the descriptor that referenced them (an implementation may protect more).
 func (m *Model) reach(r *mRepo, loose bool) map[ociregistry.Digest]bool {
-	seen := map[ociregistry.Digest]bool{}
+	// reached: every digest named anywhere in the tagged graph, in whatever role; walked: the manifests
+	// already descended into (per media type they were read as). The two are kept apart: a digest may be
+	// held both as a blob and as a manifest, and meeting it as somebody's layer says nothing about what
+	// it refers to as a manifest.
+	reached := map[ociregistry.Digest]bool{}
+	walked := map[string]bool{}
 	var visit func(d ociregistry.Digest, viaMT string)
 	visit = func(d ociregistry.Digest, viaMT string) {
+		reached[d] = true
 		man := r.Mans[d]
-		key := d
-		if seen[key] && man == nil {
-			return
-		}
-		first := !seen[key]
-		seen[key] = true
-		if man == nil || !first && !loose {
+		if man == nil {
 			return
 		}
 		mts := []string{man.MT}
@@ -244,21 +244,20 @@ func (m *Model) reach(r *mRepo, loose bool) map[ociregistry.Digest]bool {
 			mts = append(mts, viaMT)
 		}
 		for _, mt := range mts {
+			k := string(d) + "|" + mt
+			if walked[k] {
+				continue
+			}
+			walked[k] = true
 			refs, _ := manifestRefs(mt, man.Data)
 			for _, ref := range refs {
 				switch ref.kind {
 				case "blob":
-					seen[ref.desc.Digest] = true
+					reached[ref.desc.Digest] = true
 				case "manifest":
-					if !seen[ref.desc.Digest] || loose {
-						if !seen[ref.desc.Digest] {
-							visit(ref.desc.Digest, ref.desc.MediaType)
-						} else {
-							seen[ref.desc.Digest] = true
-						}
-					}
+					visit(ref.desc.Digest, ref.desc.MediaType)
 				case "subject":
-					if loose && !seen[ref.desc.Digest] {
+					if loose {
 						visit(ref.desc.Digest, ref.desc.MediaType)
 					}
 				}
@@ -268,7 +267,7 @@ func (m *Model) reach(r *mRepo, loose bool) map[ociregistry.Digest]bool {
 	for _, d := range r.Tags {
 		visit(d.Digest, d.MediaType)
 	}
-	return seen
+	return reached
 }
 
 // Predict gives the reference answer for a transition.
